@@ -10,7 +10,7 @@
    every RPC of hash A is withheld at each stage of A's lifecycle while hash B runs to completion, and
    B's observations must equal those of B running alone (implementation against implementation), while
    the two-hash trace must also replay through this product model. *)
-From Tramp Require Import Model.Base Model.Tlv Model.Fee Model.Classify Model.Sys Check.Common Check.SysCheck Proofs.IsolationProofs.
+From Tramp Require Import Model.Base Model.Tlv Model.Fee Model.Classify Model.Sys Check.Common Check.SysCheck Proofs.IsolationProofs Proofs.IsolationRun.
 
 (* an event of hash h: component h makes exactly its own per-hash step with its own outputs, every other component is untouched *)
 Theorem C14_event_is_local : forall w g h ev sel,
@@ -43,3 +43,19 @@ Proof.
   - destruct (map_comps (fun s => step (w_cfg w) s EvCrash) g) as [cs o] eqn:E. cbn [fst comps].
     pose proof (map_comps_find (fun s => step (w_cfg w) s EvCrash) g h) as M. rewrite E, Hx in M. exact M.
 Qed.
+
+(* non-interference over whole histories: two global histories (event, select-order) that contain the same events CONCERNING hash h -
+   its HTLCs, its node and lifecycle events, the global clock / chain / crash events - and ANY other events of other hashes in between,
+   from states that agree on h, end with the same component for h, the same clock and the same chain height. What another payment does,
+   how often and in which order relative to h's events, is invisible to h; with C14_event_is_local (the outputs of an event of h are a
+   function of h's component) so are all of h's responses and RPC requests. Bursts are excluded (a Check-layer scheduling artefact). *)
+Theorem C14_noninterference : forall w h evs1 evs2 g1 g2,
+  forallb no_burst evs1 = true -> forallb no_burst evs2 = true ->
+  view w h evs1 = view w h evs2 -> same_for h g1 g2 ->
+  same_for h (grun w g1 evs1) (grun w g2 evs2).
+Proof. exact noninterference. Qed.
+
+(* in particular: h alone behaves as h among any others *)
+Theorem C14_alone_or_among_others : forall w h evs g,
+  forallb no_burst evs = true -> same_for h (grun w g evs) (grun w g (view w h evs)).
+Proof. intros w h evs g Hb. exact (run_view w h evs g g Hb (same_for_refl h g)). Qed.
